@@ -104,6 +104,7 @@ func runC17(c *Ctx, r *Report) {
 	c17ChildExit(c, r)
 	c17ErrorsExamined(c, r)
 	c17ReadErrorsKept(c, r)
+	c17ReaderConsumers(c, r)
 }
 
 // ---- R17.1 -----------------------------------------------------------------
